@@ -724,27 +724,5 @@ def shrink(req):
         step //= 2
 
 
-F33 = "semicolon-led unquoted value continuing like data_/save_ swallows a following bracket"
-
-
-def has_semi_keyword_bracket(units):
-    """a ';' that does not begin a line, followed (case-insensitively) by data_ or save_, with a bracket or brace later in
-    the same whitespace-delimited run"""
-    n = len(units)
-    for i in range(1, n):
-        if units[i] == SEMI and units[i - 1] != LF and not (0x21 <= units[i - 1] <= 0x7e and False):
-            w = "".join(chr(lower(c)) if c < 128 else "?" for c in units[i + 1:i + 6])
-            if w in ("data_", "save_"):
-                j = i + 6
-                while j < n and not is_ws(units[j]):
-                    if units[j] in (91, 93, 123, 125):
-                        return True
-                    j += 1
-    return False
-
-
 def finding_class(req, impl, model, why):
-    t = req.split()
-    if t[1] == "2" and why and "token stream differs" in why and has_semi_keyword_bracket(unhexs(t[4])):
-        return F33
     return None
